@@ -69,7 +69,7 @@ def prepare(tier):
 
 
 def units(tier):
-    return gen.chunks(len(_paths(tier)), 4)
+    return gen.chunks(len(_paths(tier)), 2)
 
 
 def run_unit(unit, tier):
